@@ -58,7 +58,7 @@ static void
 rec_add(void *p, size_t sz)
 {
 	for (size_t i = ((uintptr_t) p >> 4) % RSZ, n = 0; n < RSZ; i = (i + 1) % RSZ, n++) {
-		if (rec_p[i] == NULL) {
+		if (rec_p[i] == NULL || rec_p[i] == (void *) 1) { // free or tombstone
 			rec_p[i]  = p;
 			rec_sz[i] = sz;
 			rec_live++;
